@@ -199,3 +199,27 @@ func LinEntails(facts []Lin, target Lin) bool {
 	}
 	return false
 }
+
+// ParseAtom splits the text of a recorded branch atom ("L op R") at its
+// top-level comparison operator.
+func ParseAtom(s string) (Atom, bool) {
+	depth := 0
+	for i := 0; i < len(s); i++ {
+		switch s[i] {
+		case '(', '[':
+			depth++
+		case ')', ']':
+			depth--
+		case ' ':
+			if depth != 0 {
+				continue
+			}
+			for _, op := range []string{" == ", " != ", " <= ", " < "} {
+				if strings.HasPrefix(s[i:], op) {
+					return Atom{L: s[:i], Op: strings.TrimSpace(op), R: s[i+len(op):]}, true
+				}
+			}
+		}
+	}
+	return Atom{}, false
+}
